@@ -6,5 +6,6 @@ a(1) = 11: a(2) = 22: a(3) = 33
 b(0, -1) = 5: b(0, 0) = 6: b(0, 1) = 7: b(1, -1) = 8: b(1, 0) = 9: b(1, 1) = 10
 n$(0) = "zero": n$(1) = "one": n$(2) = "two"
 PRINT a(k%); b(1, k% - 2); n$(k%)
+PRINT k%
 a(k%) = a(1) + a(3)
 PRINT a(2)
